@@ -84,6 +84,8 @@ Effect(s, mu, a) ==
          THEN R(TRUE, [s EXCEPT ![n] = V("tup", [s[n].d EXCEPT ![1] = 9])], mu) ELSE R(FALSE, s, mu)
     [] a.a = "Destructure" ->     \* (n, m) := (7, 8) : defines both names (immutable) or neither
          IF n # m /\ ~Def(s, n) /\ ~Def(s, m) THEN R(TRUE, [s EXCEPT ![n] = Sc(7), ![m] = Sc(8)], mu) ELSE R(FALSE, s, mu)
+    [] a.a = "DestructureTooMany" ->  \* (n, m, zz9) := (7, 8) : one target more than the tuple has elements - fails, NOTHING is defined
+         R(FALSE, s, mu)
     [] a.a = "DestructureVar" ->  \* (n, m) := k with k a tuple variable
          IF n # m /\ ~Def(s, n) /\ ~Def(s, m) /\ Def(s, a.k) /\ s[a.k].cls = "tup"
          THEN R(TRUE, [s EXCEPT ![n] = Sc(s[a.k].d[1]), ![m] = Sc(s[a.k].d[2])], mu) ELSE R(FALSE, s, mu)
